@@ -538,7 +538,10 @@ class DimensionValue(Value):
     Covers DIMENSION, PERCENTAGE or NUMBER values.
     """
 
-    __reUnNumDim = re.compile(r'^([+-]?)(\d*\.\d+|\d+)(.*)$', re.I | re.U | re.X)
+    # ASCII digits only (the tokenizer's {num}); the unit may contain anything
+    __reUnNumDim = re.compile(
+        r'^([+-]?)([0-9]*\.[0-9]+|[0-9]+)(.*)$', re.I | re.U | re.X | re.S
+    )
     _dimension = None
     _sign = None
 
